@@ -13,7 +13,7 @@ from . import PropBase, steps_with_ids
 
 KINDS = ["int", "float", "dec", "frac", "uuid", "ppath", "purepath", "path", "date", "dt", "time", "td", "enum"]
 TEMPORAL = ("date", "dt", "time", "td")
-FAULTS = ("twin", "shrink", "clear", "zone", "clock", "cross_target")
+FAULTS = ("twin", "shrink", "clear", "zone", "clock", "cross_target", "buffer_reuse")
 EPOCH_MIN, EPOCH_MAX = -62135596800, 253402300799
 
 
@@ -99,7 +99,7 @@ class C04(PropBase):
             e = rng.choice(enums)
             mem = rng.choice(e["members"])
             step = {"op": "s_parse", "k": "enum", "enum": e["n"], "v": {"$enum": [f"vw0.{e['n']}", mem[0]]},
-                    "carrier": rng.choice(hist.CARRIERS) if isinstance(mem[1], str) else "value"}
+                    "carrier": rng.choice(hist.CARRIERS + ("rbuf",)) if isinstance(mem[1], str) else "value"}
             if rng.random() < 0.4:
                 step["op"] = "s_emit"
             elif rng.random() < 0.5:
@@ -116,7 +116,8 @@ class C04(PropBase):
             op = "s_parse" if r < 0.65 else "s_emit"
         step = {"op": op, "k": k, "v": v}
         if op == "s_parse":
-            step["carrier"] = rng.choice(hist.CARRIERS)
+            # ("rbuf": the caller's receive buffer - one bytearray, overwritten in place for every message)
+            step["carrier"] = rng.choice(hist.CARRIERS + ("rbuf", "rbuf"))
             mid = []
             for f in ("zone", "clock", "clear", "shrink"):
                 if f in sw and rng.random() < sw[f]:
@@ -203,7 +204,14 @@ class C04(PropBase):
             for f in step.get("mid", ()):
                 sess.exec_fault(i, f)
             car = step.get("carrier", "str")
-            x = text if car == "value" or not isinstance(text, str) else sess.V(hist.carry(text, car))
+            if car == "rbuf" and isinstance(text, str):
+                x = sess.__dict__.setdefault("_c04_rbuf", bytearray())
+                if x:
+                    sess.faults["buffer_reuse"] += 1
+                    sess.fault_fired_before = True
+                x[:] = text.encode("utf-8", "surrogatepass")
+            else:
+                x = text if car in ("value", "rbuf") or not isinstance(text, str) else sess.V(hist.carry(text, car))
             out = sess.guarded(sess.call, step, typelib.unmarshal, T, x)
             sess._c04 = ("parse", v, text)
             return out
@@ -216,6 +224,7 @@ class C04(PropBase):
             else:
                 text = _text(v)
             car = step.get("carrier", "str")
+            car = "bytearray" if car == "rbuf" else car
             x = sess.V(hist.carry(text, car)) if isinstance(text, str) else text
             sess.faults["cross_target"] += 1
             sess.fault_fired_before = True
